@@ -129,6 +129,9 @@ def signature(pid, what, source, case, events, i=0, opts_tag=""):
         gained = sorted(set(k[0] for k in f.get("census_gained", [])))
         return "%s|census|%s|lost:%s|gained:%s" % (source, tag, ",".join(lost), ",".join(gained))
     if what in ("oscillation", "late_convergence") or what.startswith("second_pass"):
+        if source in ("corpus", "types"):
+            # whole files / type positions: one entry per (file | position), whatever line moves
+            return "%s|not_a_fixpoint|%s" % (source, tag)
         return "%s|%s|%s|%s" % (source, what, tag, layout_change(x.get("line_a", ""), x.get("line_b", "")))
     if pid == "C10":
         cfg = f.get("cfg", {})
